@@ -170,6 +170,18 @@ def check_from_matrix(ctx, chk):
             if outs is None:
                 outs = ctx.explore(lambda: ctx.ev.call(f, [mx, kv, Const(False)], {}), chk)
             rets = returns(outs)
+            if kind == "dataframe" and len(rets) > 1 and all(isinstance(o.value, Tup) and not o.unmodelled for o in rets):
+                # the expectation does not depend on the path: a branch on a property of the frame (the class of its index, ...) that
+                # builds the matrix from a re-labelled / transformed frame is reported on its own path
+                idx = App("list", (App("attr:index", (mx,)),))
+                expk = K if kv is K else idx
+                want = App("attr:values", (App("getitem", (App("attr:loc", (mx,)), Tup([expk, expk]))),))
+                bad = [o for o in rets if not (same(o.value.items[0], want) and same(o.value.items[1], expk))]
+                if bad:
+                    chk.violation("R05.2", AFM, inst + ":path", "on the path [%s]: %s ; classes=%s" % (pc_text(bad[0])[:160], show(bad[0].value.items[0], 200), show(bad[0].value.items[1], 80)),
+                                  show(want, 200) + " on every path (row and column labels of the frame as given)", ctx.where(AFM))
+                    continue
+                rets = rets[:1]
             if len(rets) != 1 or rets[0].unmodelled or not isinstance(rets[0].value, Tup):
                 chk.unknown("R05.2", "%s [%s]: %d return paths %s" % (AFM, inst, len(rets), rets and unmodelled_text(rets[0])))
                 continue
